@@ -25,6 +25,15 @@ open GmqttVerif.Generated GmqttVerif.Hooks GmqttVerif.Broker GmqttVerif.BrokerHo
     `srv.hooks` by `initPluginHooks`. -/
 theorem all_wrappers_installed : ∀ k ∈ hookWrapperFields, k ∈ collectedKinds ∧ k ∈ appliedKinds := by decide
 
+/-- The folded hooks are installed BEFORE anything takes a copy of a hook value: in `(*server).init` the call of
+    `initPluginHooks` precedes every place where `srv.hooks.X` is stored or passed on (the queue notifier of every session
+    restored from persistence is built from such a copy), no function that runs before `init` has returned takes one, and
+    plugins are loaded only afterwards. A copy taken earlier would be a hook without the plugins' wrappers for the whole
+    life of the object that holds it ("every hook wrapper a plugin exposes is installed"). -/
+theorem hooks_installed_before_captured :
+    initHookOrderN.head? = some 0 ∧ (initHookOrderN.filter (· = 0)).length = 1
+    ∧ initHookOrderN.getLast? = some 3 ∧ hookCapturesInitPhaseN = 0 := by decide
+
 /-- Wrapper field `XWrapper` corresponds to hook field `X` of `Hooks` (both directions), and each apply block starts
     from and assigns the hook field of its own kind. -/
 theorem wrapper_hook_names_match :
